@@ -170,9 +170,21 @@ def work_lit(spec, part):
     items = literal_cases(r, spec["n"])
     cases = [{"mode": "run", "main": "main", "files": {"main": t}, "opts": [("budget", 2000), ("program", 0)]} for t, _, _ in items]
     outs, _ = common.run_batch(cases)
-    for (text, v, pos), case, r_ in zip(items, cases, outs):
+    # the same sources through the lower-level entry points: parse once, generate twice (a range error must not depend on
+    # what the generator did to the tree the first time)
+    scases = [{"mode": "compile", "main": "main", "files": {"main": t}, "opts": [("program", 0), ("stages", 1)]} for t, _, _ in items]
+    souts, _ = common.run_batch(scases)
+    for (text, v, pos), case, r_, sc, so in zip(items, cases, outs, scases, souts):
         part["evals"] += 1
         if common.abnormal(ID, case, r_, part, "with literal %d in position %s" % (v, pos)):
+            continue
+        if common.abnormal(ID, sc, so, part, "with literal %d in position %s (parse + gen twice)" % (v, pos)):
+            continue
+        if so.get("stages", [1, 1]) != [1, 1]:
+            part["violations"].append({"signature": "literal-range:%s:regen" % pos, "message":
+                                       "literal %d in position '%s': %s" % (v, pos, "generating code a second time from the same tree gives another result"
+                                                                           if so["stages"][0] == 0 else "parse() + gen() differs from compile()"),
+                                       "case": common.slim_case(sc)})
             continue
         range_err = any("out of range" in e[1] for e in r_["errors"])
         want = v >= INT_MAX
